@@ -114,6 +114,11 @@ def r1_r2(ctx, R):
         tmpl = "".join(v.value if isinstance(v, ast.Constant) else "\x00" for v in J.values)
         if re.fullmatch("Content-Length: ?\x00\r\n(?:[^\r\n\x00]+\r\n)*\r\n\x00", tmpl) and len(fvs) == 2:
             R.ok("C16.R2", f.short, "frame template", loc(f, J), repr(tmpl.replace("\x00", "{}")))
+        elif isinstance(ctx.m.parent.get(J), (ast.Tuple, ast.List, ast.BinOp, ast.Call, ast.GeneratorExp, ast.ListComp)) and "\r\n" not in tmpl:
+            # the f-string is only one header field; the frame is assembled from pieces (join over fields) the rule does not fold
+            R.undecided("C16.R2", f.short, "frame template", loc(f, J), "the frame is assembled from separate header fields")
+            R.undecided("C16.R1", f.short, "frame", loc(f, J), "the frame is assembled from separate header fields")
+            continue
         else:
             why = "frame template is " + repr(tmpl.replace("\x00", "{}"))
             if "\r\n\r\n" not in tmpl:
